@@ -304,6 +304,9 @@ func (p *ReverseProxy) clusterInvoke(srv *BfeServer, cluster *bfe_cluster.BfeClu
 			retVal := hl.FilterForward(request)
 			switch retVal {
 			case bfe_module.BfeHandlerFinish:
+				// the selected backend is not used: its connection counter has
+				// not been increased, so FinishReq() must not decrease it
+				request.Trans.Backend = nil
 				// close the connection after response
 				action = closeAfterReply
 				return
